@@ -237,3 +237,10 @@ def detect_kind(records):
     if abs(d - p) < 1e-9:
         return None
     return "dna" if d > p else "protein"
+
+
+def fit_type(t, kind, records):
+    """an explicit alignment type is only admissible when kalign detects the kind it belongs to; short or ambiguity-rich sets may be
+    classified as the other kind (and the type then rightly rejected): fall back to 'undefined' (5) in that case"""
+    want = "protein" if kind == "protein" else "dna"
+    return t if detect_kind(records) == want else 5
